@@ -276,6 +276,11 @@ func (g *gen) rdfaGraph() []Triple {
 				continue
 			}
 		}
+		if g.r.Chance(12) {
+			// the same subject and object under a second predicate (property="p q")
+			last := out[len(out)-1]
+			out = append(out, Triple{last.S, I(vh.Pick(g.r, predIRIs)), last.O})
+		}
 		if g.r.Chance(30) {
 			cur = g.resource(true)
 		}
